@@ -100,9 +100,11 @@ def setOp (a b : Trie) (j : J) : Option (Except Err (Trie × J)) :=
   | some "contains", some p => some ((Trie.contains a p).map fun r => (a, .bool r))
   | some "has_prefix", some p => some ((Trie.hasPrefix a p).map fun r => (a, .bool r))
   | some "rebase", some p => some (.ok (Trie.rebase a p, .null))
-  | some "subtree", some p => some (.ok (a, match Trie.subtree a p with
-      | some t => pathsJ t
-      | none => .null))
+  | some "subtree", some p => some (match Trie.subtree a p with
+      | .error e => .error e
+      | .ok none => .ok (a, .null)
+      | .ok (some .mark) => .error .attribute       -- iterating a "set" whose trie is `True`
+      | .ok (some t) => .ok (a, pathsJ t))
   | some "update", _ => some (.ok (Trie.union a b, .null))
   | some "union", _ => some (.ok (a, pathsJ (Trie.union a b)))
   | some "intersection_update", _ => some (.ok (Trie.intersection a b, .null))
